@@ -7,15 +7,21 @@ ID = "C19"
 MODULE = "DrandProofs.C19"
 THEOREMS = ["Drand.Daemon." + t for t in [
     "tie_defaultBeaconID", "tie_defaultChainHash", "tie_isDefaultBeaconID", "tie_canon", "tie_compareBeaconIDs",
-    "tie_shutdown_order", "tie_loadBeacon_order", "tie_loadBeaconFromStore_order", "tie_dkgCallback_order",
-    "tie_storeDKGOutput_order",
-    "c19_hex_ne_default", "c19_table_inv", "c19_sound", "c19_mismatch_rejected", "c19_hash_alone_selects",
-    "c19_neither_is_default", "c19_http", "c19_http_default_only", "c19_load_registers", "c19_stop_unresolves",
-    "c19_remove_local", "c19_local", "c19_table_inv_partial", "c19_table_inv_counterexample"]]
+    "tie_script_readBeaconID", "tie_script_getBeaconProcessByID", "tie_script_getBeaconProcessFromRequest",
+    "tie_script_InstantiateBeaconProcess", "tie_script_AddBeaconHandler", "tie_script_RemoveBeaconHandler",
+    "tie_script_RemoveBeaconProcess", "tie_script_LoadBeaconFromStore", "tie_script_LoadBeaconFromDisk",
+    "tie_script_LoadBeaconsFromDisk", "tie_script_LoadBeacon", "tie_script_Shutdown", "tie_script_storeDKGOutput",
+    "tie_script_dkgCallback", "tie_serviceMethods", "tie_serviceMethodsBypassingRouting",
+    "tie_script_http_RegisterNewBeaconHandler", "tie_script_http_RemoveBeaconHandler",
+    "tie_script_http_RegisterDefaultBeaconHandler", "tie_script_http_getBeaconHandler",
+    "tie_script_http_readChainHash", "c19_hex_ne_default", "c19_sound", "c19_mismatch_rejected",
+    "c19_hash_alone_selects", "c19_neither_is_default", "c19_http", "c19_http_default_only", "c19_table_inv",
+    "c19_table_inv_partial", "c19_table_inv_counterexample", "c19_stop_unresolves", "c19_remove_local",
+    "c19_load_registers", "c19_local"]]
 TRUSTED = ["Lean 4 kernel; axioms per theorem under coverage.axioms",
-           "go2lean routing extractor (DefaultBeaconID, DefaultChainHash, IsDefaultBeaconID, GetCanonicalBeaconID, CompareBeaconIDs, call order of Shutdown / LoadBeacon / LoadBeaconFromStore / dkgCallback / storeDKGOutput), tied by rfl theorems tie_*",
+           "go2lean routing extractor: DefaultBeaconID, DefaultChainHash, IsDefaultBeaconID, GetCanonicalBeaconID, CompareBeaconIDs translated to Lean definitions (tied by rfl), and the normalised statement scripts of the 19 functions that read or write the routing tables compared with golden copies (tie_script_*); that the model follows those statements is by inspection plus the differential run",
            "harness engine 'route': a real DrandDaemon (NewDrandDaemon on loopback, memdb) with real file key stores; the DKG database is a stub that always reports 'no completed DKG' (group-file path of LoadBeaconFromStore); DKG completion enters at the real storeDKGOutput",
-           "chain hashes of distinct chains are distinct (SHA-256 collision freedom, C17) and never the empty string or 'default'",
+           "c19_remove_local assumes distinct running processes have distinct non-empty chain hashes (the id is part of the preimage, C17; SHA-256 collision freedom); the harness checks it for its labels",
            "modelled, not verified: Go map semantics, sync.RWMutex (each control call is one atomic step of the model), chi URL routing, gRPC transport (the service methods are called in-process in the quick tier)"]
 ASSUMPTIONS = ["a group stored under / produced for beacon id X carries group.ID = X (guaranteed by the DKG, not by the loader)",
                "a DKG completion on a process that already has a group keeps its chain hash (public key and scheme unchanged: C07 + kyber resharing); the model shows the stale entry otherwise (c19_table_inv_counterexample) and the check replays it on the real code",
